@@ -136,15 +136,26 @@ C19_Step(pre, r, resp, post) ==
 NoGens(s) == [s EXCEPT !.rp = [p \in DOMAIN @ |-> [@[p] EXCEPT !.gen = 0]],
                        !.cons = [c \in DOMAIN @ |-> [@[c] EXCEPT !.gen = 0]]]
 
-\* `got` is `want` except that generations the request moves may have moved further
+\* `got` is `want` up to how far generations moved: equal with generations
+\* erased; a generation that `want` leaves as it was in db0 is as it was, one
+\* that `want` moves has moved forward (by however much: a retry, or an
+\* implementation that bumps in more or fewer steps than Apply, is the same
+\* to a client)
 SameUpToRetriedGens(db0, want, got) ==
   /\ NoGens(got) = NoGens(want)
   /\ \A p \in Providers(want) :
-        IF p \in Providers(db0) /\ want.rp[p].gen = db0.rp[p].gen
-        THEN got.rp[p].gen = want.rp[p].gen ELSE got.rp[p].gen >= want.rp[p].gen
+        p \in Providers(db0) =>
+           IF want.rp[p].gen = db0.rp[p].gen
+           THEN got.rp[p].gen = db0.rp[p].gen ELSE got.rp[p].gen > db0.rp[p].gen
   /\ \A c \in DOMAIN want.cons :
-        IF c \in DOMAIN db0.cons /\ want.cons[c].gen = db0.cons[c].gen
-        THEN got.cons[c].gen = want.cons[c].gen ELSE got.cons[c].gen >= want.cons[c].gen
+        c \in DOMAIN db0.cons =>
+           IF want.cons[c].gen = db0.cons[c].gen
+           THEN got.cons[c].gen = db0.cons[c].gen ELSE got.cons[c].gen > db0.cons[c].gen
+
+\* generations as observed (for the entities both states have)
+AdoptGens(st, obs) ==
+  [st EXCEPT !.rp = [p \in DOMAIN @ |-> IF p \in DOMAIN obs.rp THEN [@[p] EXCEPT !.gen = obs.rp[p].gen] ELSE @[p]],
+             !.cons = [c \in DOMAIN @ |-> IF c \in DOMAIN obs.cons THEN [@[c] EXCEPT !.gen = obs.cons[c].gen] ELSE @[c]]]
 
 \* names of the monitors that fail on a step (reported by the trace checker).
 \* A state invariant is blamed on the step that breaks it (or on the first
